@@ -19,6 +19,11 @@ PROP = dict(
         "MM.C08.C10_cleanup_keeps_local",
         "MM.C08.C10_remove_outcome",
         "MM.C08.C10_manager_inv",
+        "MM.C08.view_addRoute",
+        "MM.C08.view_removeRoute",
+        "MM.C08.view_filterT",
+        "MM.C08.C10_refinement",
+        "MM.C08.C08_lookup_on_view",
         "MM.C08.C10_holds",
     ],
     spec=True,
@@ -36,7 +41,8 @@ PROP = dict(
         "inside one critical section and sync.RWMutex itself are assumed, not modelled",
         "the models of MM/Model/C08.lean, C09.lean (see C08/C09) and MM/Model/C10.lean (Manager wrappers: own sequence counter, uint16 metric+1)",
         "the four tables of a Manager share no state (each has its own mutex and maps), so a history across them is a history of each",
-        "sort.Slice modelled as the stable sort (exact for <= 12 entries per key / distinct metrics; the agent table's RemoveRoute depends on it)",
+        "sort.Slice is not stable: both sides print every run of equal metric sorted by text, lookups are `anyof` over the first run; the "
+        "agent table's RemoveRoute (first entry of the origin) is checked against every admissible choice (armAlternatives)",
         "routes are aged through verif accessors that shift LastUpdate; `cleanup k` uses maxAge = k h + 30 min so that real elapsed time cannot "
         "flip a comparison",
     ],
@@ -45,8 +51,10 @@ PROP = dict(
         "touched only under the write lock in mutators, read under R/W in lookups) and exercised by the `race` stress op (goroutines released at "
         "once, up to 400 attempts per op, outcome must be a well-formed table equal to the result of some serial order)",
         "operations on one table are serialised by its mutex (lock granularity = one method call); concurrent schedules are not enumerated",
-        "Manager.AddLocalDomainRoute / AddLocalForwardRoute (pattern validation, shared sequence counter) are not driven; their table effect is "
-        "DomainTable.AddRoute / ForwardTable.AddRoute, which are",
+        "Manager entry points driven and modelled (MM/Model/C10.lean): AddLocalRoute, RemoveLocalRoute, AddDynamicRoute, RemoveDynamicRoute, "
+        "AddLocalDomainRoute (ValidateDomainPattern), RemoveLocalDomainRoute, AddLocalForwardRoute, RemoveLocalForwardRoute (one shared sequence "
+        "counter), Process{,Domain,Forward,Agent}RouteAdvertise, ProcessRouteWithdraw, HandlePeerDisconnect, CleanupStaleRoutes, Lookup, "
+        "LookupDomain, LookupForward, LookupAgent; subscriber notification, node info and display names are not",
     ],
     manifest=dict(
         category="proof",
